@@ -54,49 +54,49 @@ PROPS = {
     "C09": {
         "lean_modules": ["RosedVerif.Props.C09"],
         "theorems": "auto",
-        "groups": ["A-edit"],
+        "groups": ["A-edit", "X-misc"],
         "oracle": True,
         "tie": "hand-written model (Model/Ops.lean: Insert, Delete, Overtype) tied by A-edit (exhaustive small sizes x positions + random)",
     },
     "C10": {
         "lean_modules": ["RosedVerif.Props.C10"],
         "theorems": "auto",
-        "groups": ["A-lines", "A-apply"],
+        "groups": ["A-lines", "A-apply", "X-misc"],
         "oracle": True,
         "tie": "hand-written model (Model/Ops.lean: lines, Lines*, ApplyOpts) tied by A-lines, A-apply",
     },
     "C06": {
         "lean_modules": ["RosedVerif.Props.C06"],
         "theorems": "auto",
-        "groups": ["A-wrap", "A-manip", "A-commit"],
+        "groups": ["A-wrap", "A-manip", "A-commit", "X-wrap"],
         "oracle": True,
         "tie": "hand-written model (Model/Manip.lean Wrap, appendWordToWrappedLine, CollapseSpace; Model/Ops.lean WrapOpts) tied by A-wrap, A-manip; Spec.wrapLines tied directly to the real code on stable vocabularies by the oracle",
     },
     "C07": {
         "lean_modules": ["RosedVerif.Props.C07"],
         "theorems": "auto",
-        "groups": ["A-collapse", "A-wrap", "A-justify", "A-align", "A-indent", "A-commit"],
+        "groups": ["A-collapse", "A-wrap", "A-justify", "A-align", "A-indent", "A-commit", "X-wrap", "X-justify", "X-align", "X-misc"],
         "oracle": True,
         "tie": "hand-written model tied by A-collapse, A-wrap, A-justify, A-align, A-indent",
     },
     "C11": {
         "lean_modules": ["RosedVerif.Props.C11"],
         "theorems": "auto",
-        "groups": ["A-para", "A-wrap", "A-justify", "A-align", "A-indent"],
+        "groups": ["A-para", "A-wrap", "A-justify", "A-align", "A-indent", "X-wrap", "X-justify", "X-align"],
         "oracle": True,
         "tie": "hand-written model (Model/Ops.lean applyGParagraphsOpts and the paragraph branches of Wrap/Justify/Align/Indent) tied by A-para and the layout groups",
     },
     "C12": {
         "lean_modules": ["RosedVerif.Props.C12"],
         "theorems": "auto",
-        "groups": ["A-justify", "A-manip", "A-commit"],
+        "groups": ["A-justify", "A-manip", "A-commit", "X-justify"],
         "oracle": True,
         "tie": "hand-written model (Model/Manip.lean JustifyLine; Model/Ops.lean JustifyOpts) tied by A-justify, A-manip",
     },
     "C13": {
         "lean_modules": ["RosedVerif.Props.C13"],
         "theorems": "auto",
-        "groups": ["A-align", "A-manip", "A-commit"],
+        "groups": ["A-align", "A-manip", "A-commit", "X-align"],
         "oracle": True,
         "tie": "hand-written model (Model/Manip.lean AlignLine*; Model/Ops.lean AlignOpts) tied by A-align, A-manip",
     },
@@ -139,7 +139,8 @@ PROPS = {
         "lean_modules": ["RosedVerif.Props.C18"],
         "theorems": "auto",
         "groups": ["A-chars", "A-commit", "A-edit", "A-lines", "A-apply", "A-para", "A-collapse", "A-wrap",
-                   "A-justify", "A-align", "A-indent", "A-twocol", "A-deftable", "A-table", "A-options", "POOL"],
+                   "A-justify", "A-align", "A-indent", "A-twocol", "A-deftable", "A-table", "A-options", "POOL",
+                   "X-wrap", "X-justify", "X-align", "X-misc"],
         "oracle": True,
         "tie": "every group's cases run under recover + watchdog + utf8.ValidString on the real code and compared with the model's Except result",
     },
